@@ -216,6 +216,55 @@ func (sg *storeGen) ids() []int {
 	return out
 }
 
+// surroundMerge: a narrow, not yet collapsed collapsing receiver (limit N) merged with a store of the SAME
+// kind and a larger limit whose range surrounds the receiver's on both sides, is wider than N, and exceeds the
+// receiver's range only slightly on the side that is kept — the two-sided extension that additions and
+// cross-kind merges (one index at a time) never produce (seeded change C05f).
+func (sg *storeGen) surroundMerge() {
+	g, r := sg.g, sg.g.rng
+	kind := []string{"low", "high"}[r.Intn(2)]
+	n := []int{2, 3, 4, 7, 8, 8, 16, 31, 32, 33, 64}[r.Intn(11)]
+	m := n + r.Range(1, 4*n+8)
+	if r.Bool(20) {
+		m = []int{128, 1024, 2048}[r.Intn(3)]
+	}
+	clamp := 1
+	if kind == "high" {
+		clamp = 2
+	}
+	sg.h = map[int]*gstore{}
+	sg.h[1] = &gstore{kind: kind, n: n, truth: NewTruth(clamp, n)}
+	sg.h[2] = &gstore{kind: kind, n: m, truth: NewTruth(clamp, m)}
+	g.emit("S 1 %s %d", kind, n)
+	g.emit("S 2 %s %d", kind, m)
+	g.stats["surround-merge"]++
+	c := sg.base
+	// receiver: 1..3 indexes within a window narrower than N
+	for k, cnt := 0, r.Range(1, 3); k < cnt; k++ {
+		i := c + r.Range(0, (n-1)/2)
+		w := ratInt(int64(r.Range(1, 3)))
+		sg.h[1].truth.Add(i, w)
+		g.emit("sadd 1 %d %s", i, showRat(w))
+	}
+	// argument: a range wider than N around it; small excess on the kept side
+	small, large := r.Range(1, n/2+1), r.Range(n, m)
+	lo, hi := c-large, c+(n-1)/2+small
+	if kind == "high" {
+		lo, hi = c-small, c+(n-1)/2+large
+	}
+	for i := lo; i <= hi; i++ {
+		if i == lo || i == hi || r.Bool(60) {
+			w := ratInt(int64(r.Range(1, 3)))
+			sg.h[2].truth.Add(i, w)
+			g.emit("sadd 2 %d %s", i, showRat(w))
+		}
+	}
+	sg.h[1].truth.Merge(sg.h[2].truth.Copy())
+	g.emit("smerge 1 2")
+	sg.observe(1, true)
+	sg.observe(2, false)
+}
+
 // genStoreHistory emits one self-contained store history for property prop.
 func (g *Gen) genStoreHistory(prop string, maxOps int) {
 	r := g.rng
@@ -237,6 +286,10 @@ func (g *Gen) genStoreHistory(prop string, maxOps int) {
 		sg.newHandle(3, false)
 	}
 	nOps := r.Range(maxOps/4+1, maxOps)
+	if prop == "C05" && r.Bool(18) {
+		sg.surroundMerge()
+		nOps = r.Range(2, 12)
+	}
 	if sg.shape == 7 {
 		nOps = r.Range(150, 420) // enough unit adds to exceed the initial trigger (64) and later ones
 		sg.spanCap = 1 << 15
